@@ -447,12 +447,22 @@ class Rec:
                 elif kind in ("cko", "ccko"):
                     self.cuckoo_step(i, r, pi)
                 else:
-                    if r < 0.25:
+                    n_now = self.obj.elements_added
+                    k_fit = max(3, n_now.bit_length())
+                    if self.tr["auto"] and 100 * (n_now - 1) >= 85 * (1 << k_fit) and rnd.random() < 0.25:
+                        # a manual shrink to the smallest table that holds everything while the load is above the limit: the re-insertion
+                        # crosses the limit and the table grows again while it is being rebuilt
+                        self.obj.resize(k_fit)
+                        self.emit("rsz", [], a=k_fit, probe_idx=pi, full=full)
+                    elif r < 0.25:
                         self.do_rem(key)
                         self.emit("rem", [(i, 1)], probe_idx=pi, full=full)
                     elif r < 0.28:
                         nq = rnd.randint(3, 10)
-                        if self.obj.elements_added < (1 << nq) * 0.8:
+                        tight = rnd.random() < 0.4      # the smallest table that still holds everything: with growth switched on the re-insertion
+                        if tight:                       # may cross the load limit and grow again while the table is being rebuilt
+                            nq = max(3, self.obj.elements_added.bit_length())
+                        if tight or self.obj.elements_added < (1 << nq) * 0.8:
                             self.obj.resize(nq)
                             self.emit("rsz", [], a=nq, probe_idx=pi, full=full)
                     elif 0.28 <= r < 0.31 and self.tr["auto"]:
